@@ -32,7 +32,7 @@ theorem joinLines_replicate (k : Nat) (x : List Char) :
 quoting because of a two-digit indicator) -/
 theorem serializeStr_literal (o : Opts) (cx : Ctx) (v : List Char)
     (hauto : autoStyle o cx.inFlow v = some .literal) (hcontent : trimEndNl v ≠ [])
-    (hfb : needsInd v = true → o.indentStep * (blockBase cx + 1) ≤ 9) :
+    (hfb : needsInd v = true → o.indentStep * (blockBase cx + 1) ≤ 9) (hb0 : blockBase cx = 0) :
     serializeStr o cx v = .ok
       ((if cx.pendingSpace then [' '] else []) ++ writeIndent o cx (blockBase cx) ++
         ('|' :: (litHeader (if firstLineLeadingSpaces (trimEndNl v) > 0 then some (o.indentStep * (blockBase cx + 1)) else none)
@@ -47,11 +47,14 @@ theorem serializeStr_literal (o : Opts) (cx : Ctx) (v : List Char)
     | cons a b => rfl
   have hbase : (if cx.pendingSpace = true then cx.mapDepth.getD cx.depth else cx.afterDash.getD cx.depth) = blockBase cx := rfl
   rw [hbase]
+  have hsh : (decide (o.indentStep < 2) && !cx.pendingSpace && decide (blockBase cx > 0)) = false := by
+    rw [hb0]; simp
   by_cases hn : firstLineLeadingSpaces (trimEndNl v) > 0
   · have hle := hfb (by simp [needsInd, hn])
     have hnot : ¬ (o.indentStep * (blockBase cx + 1) > 9) := by omega
-    simp only [hn, decide_true, Bool.true_and, decide_eq_true_eq, hnot, if_false, hce, Bool.false_eq_true,
-      if_true, litHeader, litLines, joinLines_map, joinLines_append]
+    have hb0' : ¬ (blockBase cx > 0) := by omega
+    simp only [hsh, hn, decide_true, Bool.true_and, decide_eq_true_eq, hnot, hb0', decide_false, Bool.or_self,
+      if_false, hce, Bool.false_eq_true, if_true, litHeader, litLines, joinLines_map, joinLines_append]
     congr 1
     simp only [List.append_assoc, List.cons_append, List.nil_append, List.singleton_append]
     congr 4
@@ -59,7 +62,7 @@ theorem serializeStr_literal (o : Opts) (cx : Ctx) (v : List Char)
     · simp [h2, joinLines_replicate]
     · have : v.length - (trimEndNl v).length - 1 = 0 := by omega
       simp [h2, this, joinLines]
-  · simp only [hn, decide_false, Bool.false_and, Bool.false_eq_true, if_false, hce, litHeader, litLines,
+  · simp only [hsh, hn, decide_false, Bool.false_and, Bool.or_self, Bool.false_eq_true, if_false, hce, litHeader, litLines,
       joinLines_map, joinLines_append, List.nil_append]
     congr 1
     simp only [List.append_assoc, List.cons_append, List.nil_append, List.singleton_append]
@@ -79,6 +82,14 @@ theorem takeWhile_nobreak (hdr rest : List Char) (h : ∀ c ∈ hdr, isBreak c =
     have ha := h a (by simp)
     have := ih (fun c hc => h c (by simp [hc]))
     simp [List.takeWhile, List.dropWhile, ha, this.1, this.2]
+
+theorem isDocMarker_head (a : Char) (t : List Char) (h1 : a ≠ '-') (h2 : a ≠ '.') : isDocMarker (a :: t) = false := by
+  cases t with
+  | nil => rfl
+  | cons b t =>
+    cases t with
+    | nil => rfl
+    | cons c r => simp [isDocMarker, h1, h2]
 
 /-- the node-level reader on a block scalar text: header line, then the body lines -/
 theorem readNode_block (p : Spec.Read.Pos) (hcl : p.closing = []) (hfl : p.isFlow = false) (literal : Bool)
@@ -105,14 +116,14 @@ theorem readNode_block (p : Spec.Read.Pos) (hcl : p.closing = []) (hfl : p.isFlo
   cases literal with
   | true =>
     have hk : startKind p.isFlow col0 ('|' :: (hdr ++ '\n' :: joinLines lines)) = .literal := by
-      rw [hfl]; cases col0 <;> simp [startKind, isDocMarker, isFlowInd]
+      rw [hfl]; cases col0 <;> simp [startKind, isDocMarker_head, isFlowInd]
     unfold readNode
     simp only [hk, if_true, List.drop_succ_cons, List.drop_zero, htw.1, htw.2, hnul, hcl, List.isEmpty_nil,
       Bool.not_true, Bool.or_self, Bool.false_eq_true, if_false, hsl]
     rfl
   | false =>
     have hk : startKind p.isFlow col0 ('>' :: (hdr ++ '\n' :: joinLines lines)) = .folded := by
-      rw [hfl]; cases col0 <;> simp [startKind, isDocMarker, isFlowInd]
+      rw [hfl]; cases col0 <;> simp [startKind, isDocMarker_head, isFlowInd]
     unfold readNode
     simp only [hk, List.drop_succ_cons, List.drop_zero, htw.1, htw.2, hnul, hcl, List.isEmpty_nil,
       Bool.not_true, Bool.or_self, Bool.false_eq_true, if_false, hsl]
@@ -203,34 +214,88 @@ def blockSimplePos : SerScalar.Pos → Bool
   | .root | .mapValue | .seqItem | .variant => true
   | _ => false
 
+/-- what the automatic literal selection implies about the string (since the repair a252cf9: the
+writer itself refuses CR / NUL / other controls and contents made of line breaks only) -/
+theorem autoStyle_literal_facts {o : Opts} {v : List Char} (h : autoStyle o false v = some .literal) :
+    o.quoteAll = false ∧ trimEndNl v ≠ [] ∧ ∀ c ∈ v, c ≠ '\r' ∧ isNul c = false := by
+  unfold autoStyle at h
+  cases hq : o.quoteAll with
+  | true => simp [hq] at h
+  | false =>
+    refine ⟨rfl, ?_⟩
+    simp only [hq, Bool.not_false, Bool.and_true, Bool.true_and, if_true] at h
+    cases hn : v.contains '\n' with
+    | false =>
+      simp only [hn, Bool.false_eq_true, if_false] at h
+      split at h
+      · split at h <;> cases h
+      · cases h
+    | true =>
+      simp only [hn, if_true] at h
+      cases hpb : o.preferBlock with
+      | false => simp [hpb] at h
+      | true =>
+        simp only [hpb, if_true] at h
+        by_cases hlong : (decide (v.length > o.foldedWrap) && blockOk v) = true
+        · simp only [Bool.and_eq_true] at hlong
+          have hbo := hlong.2
+          simp only [blockOk, Bool.and_eq_true, Bool.not_eq_true'] at hbo
+          refine ⟨by intro e; rw [e] at hbo; simp at hbo, ?_⟩
+          intro c hc
+          have := any_false_mem hbo.1 c hc
+          constructor
+          · intro e; subst e; revert this; decide
+          · apply Bool.eq_false_iff.mpr; intro e
+            have hc0 := char_of_toNat' (eq_of_beq e); subst hc0; revert this; decide
+        · rw [if_neg hlong] at h
+          by_cases hpv : isPlainValueSafe ((trimEndNl v).map (fun c => if c == '\n' then ' ' else c)) o.yaml12 false = true
+          · obtain ⟨_, hhead, _, _, hsafe, _⟩ := pvs_unfold hpv
+            have hne : trimEndNl v ≠ [] := by
+              intro e; rw [e] at hhead; simp [headRejects] at hhead
+            refine ⟨hne, ?_⟩
+            have hcontent : ∀ c ∈ trimEndNl v, c ≠ '\r' ∧ isNul c = false := by
+              intro c hc
+              by_cases hcn : c = '\n'
+              · subst hcn; exact ⟨by decide, by decide⟩
+              · have hm : c ∈ (trimEndNl v).map (fun c => if c == '\n' then ' ' else c) := by
+                  apply List.mem_map.mpr
+                  exact ⟨c, hc, by simp [hcn]⟩
+                obtain ⟨_, hb, hnul⟩ := not_control_facts (hsafe c hm).1
+                simp only [isBreak, Bool.or_eq_false_iff] at hb
+                exact ⟨by simpa using hb.2, hnul⟩
+            intro c hc
+            have hv := (trimEndNl_spec v).1
+            rw [hv] at hc
+            simp only [List.mem_append] at hc
+            rcases hc with hc | hc
+            · exact hcontent c hc
+            · have : c = '\n' := by simp [nls] at hc; exact hc.2
+              subst this; exact ⟨by decide, by decide⟩
+          · rw [if_neg hpv] at h; cases h
+
+/-- "the writer emits the automatic literal style" in a position whose base depth is 0: the selection,
+and no fall-back to quoting because of a two-digit indentation indicator -/
+def writerLiteral (o : Opts) (v : List Char) : Prop :=
+  autoStyle o false v = some .literal ∧ (needsInd v = true → o.indentStep ≤ 9)
+
 /-- The automatic literal block round-trips at document level: root, map value, seq item, enum newtype
-payload; no `\r`, no U+0000, content not made of line breaks only, indicator digit at most 9. -/
+payload, for every string the writer sends there, under every option vector. -/
 theorem literal_doc (o : Opts) (p : SerScalar.Pos) (v : List Char) (hp : blockSimplePos p = true)
-    (hy : o.yaml12 = false) (hstep : 1 ≤ o.indentStep)
-    (hauto : autoStyle o false v = some .literal) (hcontent : trimEndNl v ≠ [])
-    (hchars : ∀ c ∈ v, c ≠ '\r' ∧ isNul c = false)
-    (hdig : needsInd v = true → o.indentStep ≤ 9) :
+    (hstep : 1 ≤ o.indentStep) (hw : writerLiteral o v) :
     ∃ t, emitDoc o p v = .ok t ∧ readDoc (toRead p) t = some (.literal, v) := by
-  -- the writer does not use quote_all here
-  have hq : o.quoteAll = false := by
-    unfold autoStyle at hauto
-    cases hqq : o.quoteAll with
-    | false => rfl
-    | true => simp [hqq] at hauto
-  let N := o.indentStep
+  obtain ⟨hauto, hdig⟩ := hw
+  obtain ⟨hq, hcontent, hchars⟩ := autoStyle_literal_facts hauto
   let hdr := litHeader (if firstLineLeadingSpaces (trimEndNl v) > 0 then some (o.indentStep * (0 + 1)) else none)
       (v.length - (trimEndNl v).length)
   let body := '|' :: (hdr ++ '\n' :: joinLines (litLines (o.indentStep * (0 + 1)) v))
-  have hemit : emitDoc o p v = .ok (opening (toRead p) ++ body) := by
-    have hpre : preamble o = [] := by simp [preamble, hy]
+  have hemit : emitDoc o p v = .ok (preamble o ++ (opening (toRead p) ++ body)) := by
     have hV : writePlainOrQuoted ['V'] o.quoteAll = ['V'] := by rw [hq]; decide
     cases p <;> first
       | (cases hp; done)
-      | (simp only [emitDoc, hpre, hV]
-         rw [serializeStr_literal o _ v hauto hcontent (by intro h; simp only [blockBase]; have := hdig h; simp; omega)]
-         simp [blockBase, writeIndent, hy, spaces, opening, toRead, body, hdr])
+      | (simp only [emitDoc, hV]
+         rw [serializeStr_literal o _ v hauto hcontent (by intro h; simp only [blockBase]; have := hdig h; simp; omega) rfl]
+         cases hy : o.yaml12 <;> simp [blockBase, writeIndent, hy, spaces, opening, toRead, body, hdr, preamble])
   refine ⟨_, hemit, ?_⟩
-  have hN1 : o.indentStep * (0 + 1) = o.indentStep := by omega
   have hhdr : ∀ c ∈ hdr, isBreak c = false ∧ isNul c = false := by
     apply litHeader_chars
     intro n hn
@@ -259,9 +324,8 @@ theorem literal_doc (o : Opts) (p : SerScalar.Pos) (v : List Char) (hp : blockSi
   simp only [if_true] at hnode
   rw [hread] at hnode
   -- the document frame
-  unfold readDoc
-  have hstrip : stripBom (opening (toRead p) ++ body) = opening (toRead p) ++ body := by
-    cases p <;> first | rfl | (cases hp; done)
+  obtain ⟨hh1, hh2⟩ := opening_head (toRead p) '|' (hdr ++ '\n' :: joinLines (litLines (o.indentStep * (0 + 1)) v)) (by decide) (by decide)
+  rw [readDoc_frame o (toRead p) _ hh1 hh2]
   have hpc : ((opening (toRead p) ++ body).head? == some '%') = false := by
     cases p <;> first | rfl | (cases hp; done)
   have hnul : (opening (toRead p) ++ body).any isNul = false := by
@@ -284,8 +348,10 @@ theorem literal_doc (o : Opts) (p : SerScalar.Pos) (v : List Char) (hp : blockSi
       · subst e; revert hcn; decide
     simp only [body, List.any_append, List.any_cons, h1, h2, h3]
     decide
-  rw [hstrip]
-  simp only [hpc, hnul, Bool.or_self, Bool.false_eq_true, if_false]
+  show readDocBody (toRead p) (opening (toRead p) ++ body) = _
+  unfold readDocBody
+  rw [hpc, hnul]
+  simp only [Bool.or_self, Bool.false_eq_true, if_false]
   show (match stripOpening (toRead p) (opening (toRead p) ++ '|' :: (hdr ++ '\n' :: joinLines (litLines (o.indentStep * (0 + 1)) v))) with
     | none => none
     | some (s, col0, parent) => readNode (toRead p) s col0 parent) = _
